@@ -47,6 +47,14 @@ type Action struct {
 	// exactly one of the following groups is used
 	Call *CallAction
 	Mark *MarkAction // SSTORE(slot, value)
+	// StopIfBalanceAbove: STOP (successfully) if token.balanceOf(address(this)) > Amount. Lets a re-entrant program
+	// terminate: the balance is what earlier (nested) executions have already credited to the program.
+	StopIfBalanceAbove *BalanceGuard
+}
+
+type BalanceGuard struct {
+	Token  common.Address
+	Amount byte
 }
 
 type CallAction struct {
@@ -87,6 +95,29 @@ func (p Program) Runtime() []byte {
 		var blobs []blob
 		off := dataStart
 		for _, a := range p.Actions {
+			if g := a.StopIfBalanceAbove; g != nil {
+				code = append(code, 0x63, 0x70, 0xa0, 0x82, 0x31) // PUSH4 balanceOf(address)
+				code = append(code, push1(0xe0)...)
+				code = append(code, 0x1b) // SHL
+				code = append(code, push1(0)...)
+				code = append(code, 0x52) // MSTORE
+				code = append(code, 0x30) // ADDRESS
+				code = append(code, push1(4)...)
+				code = append(code, 0x52)
+				code = append(code, push1(32)...)   // retLength
+				code = append(code, push1(0x40)...) // retOffset
+				code = append(code, push1(36)...)   // argsLength
+				code = append(code, push1(0)...)    // argsOffset
+				code = append(code, 0x73)
+				code = append(code, g.Token.Bytes()...)
+				code = append(code, 0x5a, 0xfa, 0x50) // GAS STATICCALL POP
+				code = append(code, push1(g.Amount)...)
+				code = append(code, push1(0x40)...)
+				code = append(code, 0x51, 0x11) // MLOAD GT  (balance > amount)
+				code = append(code, push2(uint16(revertLabel+6))...)
+				code = append(code, 0x57) // JUMPI to the stop label
+				continue
+			}
 			if a.Mark != nil {
 				code = append(code, push1(a.Mark.Value)...)
 				code = append(code, push1(a.Mark.Slot)...)
@@ -150,11 +181,13 @@ func (p Program) Runtime() []byte {
 		code = append(code, push1(0)...)
 		code = append(code, push1(0)...)
 		code = append(code, 0xfd)
+		// stop label (revert label + 6)
+		code = append(code, 0x5b, 0x00)
 		return code, blobs
 	}
 	c0, _ := build(0, 0)
 	size := len(c0)
-	revertLabel := size - 6
+	revertLabel := size - 8
 	code, blobs := build(size, revertLabel)
 	for _, b := range blobs {
 		code = append(code, b.data...)
